@@ -14,10 +14,108 @@ import sys
 sys.path.insert(0, os.path.dirname(os.path.dirname(os.path.abspath(__file__))))
 
 
+def run_env(job):
+    """Replay one behaviour of spec/Bip38Env.tla: the environment's actions on the ambient pseudo-random generators (random,
+    numpy.random) interleaved with generation requests; returns what every request handed out."""
+    import random
+    from bitcoinlib.keys import Key, HDKey, bip38_intermediate_password, bip38_create_new_encrypted_wif
+    try:
+        import numpy
+    except Exception:       # numpy is optional
+        numpy = None
+    pw, net, comp = job['passphrase'], job['network'], bool(job.get('compressed', True))
+    acts = job['env']
+    inter0 = None
+    if any(a in ('new', 'forknew', 'newx') for a in acts):      # entropy supplied: nothing is drawn here
+        inter0 = bip38_intermediate_password(pw, owner_salt=bytes(range(1, 9)))
+
+    def codes(s):
+        return [ord(c) for c in s]
+
+    def request(a):
+        ev = {'op': {'inter': 'intermediate', 'interlot': 'intermediate-lot', 'new': 'new', 'forknew': 'new', 'newx': 'new'}.get(a, a),
+              'explicit': a == 'newx', 'arg': list(bytes.fromhex(job['supplied'])) if a == 'newx' else [], 'out': [], 'code': [],
+              'outs': [], 'desc': a}
+        try:
+            if a in ('inter', 'interlot'):
+                code = bip38_intermediate_password(pw, **({'lot': 123456, 'sequence': 7} if a == 'interlot' else {}))
+                ev['code'] = codes(code)
+                ev['outs'] = [codes(code)]
+                ev['desc'] += ' -> ' + code
+            elif a in ('new', 'forknew', 'newx'):
+                kw = {'seed': bytes.fromhex(job['supplied'])} if a == 'newx' else {}
+                r = bip38_create_new_encrypted_wif(inter0, compressed=comp, network=net, **kw)
+                seed = r['seed'] if isinstance(r['seed'], (bytes, bytearray)) else bytes.fromhex(r['seed'])
+                ev['out'] = list(seed)
+                ev['outs'] = [codes(r['encrypted_wif']), codes(r['address']), codes(r['confirmation_code'])]
+                ev['desc'] += ' -> %s / %s' % (r['encrypted_wif'], r['address'])
+            elif a == 'key':
+                k = Key(network=net)
+                ev['out'] = list(k.private_byte)
+                ev['outs'] = [list(k.private_byte)]
+                ev['desc'] += ' -> key %s..' % k.private_byte.hex()[:8]
+            elif a == 'hdkey':
+                k = HDKey(network=net)
+                ev['out'] = list(k.private_byte + k.chain)
+                ev['outs'] = [list(k.private_byte)]
+                ev['desc'] += ' -> key %s..' % k.private_byte.hex()[:8]
+            else:
+                raise ValueError(a)
+        except Exception as e:
+            ev['refused'] = '%s: %s' % (type(e).__name__, str(e)[:120])
+            ev['desc'] += ' RAISED ' + ev['refused']
+        return ev
+
+    saved = None
+    events, desc = [], []
+    for a in acts:
+        if a in ('seed1', 'seed2'):
+            random.seed(job['seeds'][a])
+            if numpy:
+                numpy.random.seed(job['seeds'][a] % (1 << 32))
+            desc.append('random.seed(%d)' % job['seeds'][a])
+        elif a == 'save':
+            saved = (random.getstate(), numpy.random.get_state() if numpy else None)
+            desc.append('getstate')
+        elif a == 'restore':
+            random.setstate(saved[0])
+            if numpy:
+                numpy.random.set_state(saved[1])
+            desc.append('setstate')
+        elif a == 'forknew':        # the request runs in a forked child, which inherits the ambient state
+            rfd, wfd = os.pipe()
+            pid = os.fork()
+            if pid == 0:
+                try:
+                    os.close(rfd)
+                    os.write(wfd, json.dumps(request(a)).encode())
+                finally:
+                    os._exit(0)
+            os.close(wfd)
+            data = b''
+            while True:
+                chunk = os.read(rfd, 65536)
+                if not chunk:
+                    break
+                data += chunk
+            os.close(rfd)
+            os.waitpid(pid, 0)
+            ev = json.loads(data.decode()) if data else {'refused': 'forked child returned nothing', 'desc': a + ' RAISED'}
+            events.append(ev)
+            desc.append('[fork] ' + ev['desc'])
+        else:
+            ev = request(a)
+            events.append(ev)
+            desc.append(ev['desc'])
+    sys.stdout.write(json.dumps({'events': events, 'desc': desc, 'news': []}))
+
+
 def main():
     job = json.loads(sys.argv[1])
     from harness import common
     common.fresh_bitcoinlib_env()
+    if 'env' in job:
+        return run_env(job)
     from bitcoinlib.keys import Key, HDKey, bip38_intermediate_password, bip38_create_new_encrypted_wif
     pw = job['passphrase']
     net = job['network']
